@@ -4,9 +4,9 @@ from auction_common import impl_exec, impl_exec_multi, nontrivial, classify  # n
 
 SHARDS = {'quick': 1, 'thorough': 16}
 TITLE = 'Final contract is the last bid, its doubling state and its true declarer'
-LEAN_TARGETS = ['BridgeVerif.Props.C03', 'BridgeVerif.Translated.Auction']
-AUDIT_PROPS = ['C03', 'Translated.Auction']
-REQUIRED = ['translated_contract_is_spec', 'Translated.Auction.init_translated', 'Translated.Auction.take_bid_translated', 'Translated.Auction.run_translated', 'Translated.Auction.contract_translated',
+LEAN_TARGETS = ['BridgeVerif.Props.C03', 'BridgeVerif.Translated.Auction', 'BridgeVerif.Props.C03t']
+AUDIT_PROPS = ['C03', 'Translated.Auction', 'C03t']
+REQUIRED = ['C03t.translated_contract_is_spec', 'Translated.Auction.init_translated', 'Translated.Auction.take_bid_translated', 'Translated.Auction.run_translated', 'Translated.Auction.contract_translated',
             'contract_none_before_end', 'contract_is_spec', 'declarer_is_first_namer', 'first_namer_some', 'first_namer_none', 'passed_out_shape', 'flags_follow_status',
             'superseded_double_cleared', 'passed_out_iff_no_bid']
 RULE = ('same campaign as C01; the contract is compared after every call (None before the end), as level/denomination, '
